@@ -26,6 +26,7 @@ package session
 //@   ensures  [others]   forall k packet.ID :: !(hasID(pkt) && k == idOf(pkt)) ==> (has(s.packets, k) <==> old(has(s.packets, k))) && s.packets[k] == old(s.packets[k])
 //@   ensures  [order-kept] !(hasID(pkt) && !old(has(s.packets, idOf(pkt)))) ==> s.order == old(s.order)
 //@   ensures  [order-appended] hasID(pkt) && !old(has(s.packets, idOf(pkt))) ==> len(s.order) == old(len(s.order)) + 1 && s.order[old(len(s.order))] == idOf(pkt) && forall i int {s.order[i]} :: 0 <= i && i < old(len(s.order)) ==> s.order[i] == old(s.order[i])
+//@   ensures  [order-array] arr(s.order) == old(arr(s.order)) || fresh(s.order)
 //@   ensures  [released] held[s.mutex] == 0
 //@   modifies elems(s.packets), s.order, elems(s.order[0:cap(s.order)]), held[s.mutex]
 //
@@ -42,6 +43,7 @@ package session
 //@   ensures  [others]   forall k packet.ID :: k != id ==> (has(s.packets, k) <==> old(has(s.packets, k))) && s.packets[k] == old(s.packets[k])
 //@   ensures  [order-kept] (forall i int {old(s.order[i])} :: 0 <= i && i < old(len(s.order)) ==> old(s.order[i]) != id) ==> s.order == old(s.order)
 //@   ensures  [order-removed] (exists q int {old(s.order[q])} :: 0 <= q && q < old(len(s.order)) && old(s.order[q]) == id) ==> len(s.order) == old(len(s.order)) - 1 && exists p int {old(s.order[p])} :: 0 <= p && p < old(len(s.order)) && old(s.order[p]) == id && (forall i int {s.order[i]} :: 0 <= i && i < p ==> s.order[i] == old(s.order[i])) && (forall i int {s.order[i]} :: p <= i && i < len(s.order) ==> s.order[i] == old(s.order[i+1]))
+//@   ensures  [order-array] arr(s.order) == old(arr(s.order)) || fresh(s.order)
 //@   ensures  [released] held[s.mutex] == 0
 //@   modifies elems(s.packets), s.order, elems(s.order[0:cap(s.order)]), held[s.mutex]
 //@   loop 1 invariant [scan] held[s.mutex] == 2 && 0 <= rangeindex + 1 && rangeindex + 1 <= len(s.order) && s.order == old(s.order) && !has(s.packets, id) && (forall k packet.ID {s.packets[k]} :: k != id ==> (has(s.packets, k) <==> old(has(s.packets, k))) && s.packets[k] == old(s.packets[k])) && forall i int {s.order[i]} :: 0 <= i && i <= rangeindex ==> s.order[i] != id
@@ -69,6 +71,7 @@ package session
 //@   ensures [fresh] fresh(s) && s != nil && fresh(s.packets) && s.packets != nil && len(s.order) == 0
 //@   ensures [empty] forall k packet.ID :: !has(s.packets, k)
 //@   ensures [unlocked] held[s.mutex] == 0
+//@   ensures [order-nil] arr(s.order) == 0
 //
 //@ func (s *MemorySession) storeForDirection(dir Direction) (st *PacketStore)
 //@   requires [dir] dir == 0 || dir == 1
@@ -82,7 +85,7 @@ package session
 //@   ensures  [advance]  idview(s.Counter.next) == succ(id)
 //@   modifies s.Counter.next, held[s.Counter.mutex]
 //
-//@ spec pred wfsession(s *MemorySession) = s.Incoming != nil && s.Outgoing != nil && s.Incoming != s.Outgoing && s.Incoming.packets != nil && s.Outgoing.packets != nil && s.Incoming.packets != s.Outgoing.packets && held[s.Incoming.mutex] == 0 && held[s.Outgoing.mutex] == 0
+//@ spec pred wfsession(s *MemorySession) = s.Incoming != nil && s.Outgoing != nil && s.Incoming != s.Outgoing && s.Incoming.packets != nil && s.Outgoing.packets != nil && s.Incoming.packets != s.Outgoing.packets && held[s.Incoming.mutex] == 0 && held[s.Outgoing.mutex] == 0 && (arr(s.Incoming.order) == 0 || arr(s.Outgoing.order) == 0 || arr(s.Incoming.order) != arr(s.Outgoing.order))
 //
 //@ func (s *MemorySession) SavePacket(dir Direction, pkt packet.Generic) (err error)
 //@   requires [dir]   dir == 0 || dir == 1
@@ -92,6 +95,7 @@ package session
 //@   ensures  [saved] hasID(pkt) ==> has((dir == 0 ? s.Incoming : s.Outgoing).packets, idOf(pkt)) && (dir == 0 ? s.Incoming : s.Outgoing).packets[idOf(pkt)] == pkt
 //@   ensures  [others] forall k packet.ID :: !(hasID(pkt) && k == idOf(pkt)) ==> (has((dir == 0 ? s.Incoming : s.Outgoing).packets, k) <==> old(has((dir == 0 ? s.Incoming : s.Outgoing).packets, k))) && (dir == 0 ? s.Incoming : s.Outgoing).packets[k] == old((dir == 0 ? s.Incoming : s.Outgoing).packets[k])
 //@   ensures  [otherdir] forall k packet.ID :: (has((dir == 0 ? s.Outgoing : s.Incoming).packets, k) <==> old(has((dir == 0 ? s.Outgoing : s.Incoming).packets, k))) && (dir == 0 ? s.Outgoing : s.Incoming).packets[k] == old((dir == 0 ? s.Outgoing : s.Incoming).packets[k])
+//@   at exit assert [order-arrays-exist] old(arr(s.Incoming.order)) >= 0 && old(arr(s.Outgoing.order)) >= 0
 //@   ensures  [wf]    wfsession(s)
 //@   modifies elems((dir == 0 ? s.Incoming : s.Outgoing).packets), (dir == 0 ? s.Incoming : s.Outgoing).order, elems((dir == 0 ? s.Incoming : s.Outgoing).order[0:cap((dir == 0 ? s.Incoming : s.Outgoing).order)]), held[(dir == 0 ? s.Incoming : s.Outgoing).mutex]
 //
@@ -111,6 +115,7 @@ package session
 //@   ensures  [gone]  !has((dir == 0 ? s.Incoming : s.Outgoing).packets, id)
 //@   ensures  [others] forall k packet.ID :: k != id ==> (has((dir == 0 ? s.Incoming : s.Outgoing).packets, k) <==> old(has((dir == 0 ? s.Incoming : s.Outgoing).packets, k))) && (dir == 0 ? s.Incoming : s.Outgoing).packets[k] == old((dir == 0 ? s.Incoming : s.Outgoing).packets[k])
 //@   ensures  [otherdir] forall k packet.ID :: (has((dir == 0 ? s.Outgoing : s.Incoming).packets, k) <==> old(has((dir == 0 ? s.Outgoing : s.Incoming).packets, k))) && (dir == 0 ? s.Outgoing : s.Incoming).packets[k] == old((dir == 0 ? s.Outgoing : s.Incoming).packets[k])
+//@   at exit assert [order-arrays-exist] old(arr(s.Incoming.order)) >= 0 && old(arr(s.Outgoing.order)) >= 0
 //@   ensures  [wf]    wfsession(s)
 //@   modifies elems((dir == 0 ? s.Incoming : s.Outgoing).packets), (dir == 0 ? s.Incoming : s.Outgoing).order, elems((dir == 0 ? s.Incoming : s.Outgoing).order[0:cap((dir == 0 ? s.Incoming : s.Outgoing).order)]), held[(dir == 0 ? s.Incoming : s.Outgoing).mutex]
 //
